@@ -12,7 +12,7 @@ import io
 import json
 import re
 
-from .. import artefact, corpus, npuhw, streams, tlc, vela_run
+from .. import artefact, corpus, liverange, npuhw, streams, tlc, vela_run
 from ..common import Run, MachineryError, seed
 
 AREA_LABEL = {"SRAM": "SRAM", "DRAM": "DRAM", "On-chip Flash": "On-chip Flash", "Off-chip Flash": "Off-chip Flash"}
@@ -108,7 +108,27 @@ def main(tier):
     rng = random.Random(sd)
     for j in jobs:       # alignment is this property's own dimension: sweep it on every job
         j["opts"]["align"] = rng.choice([16, 32, 64, 128, 256])
-    rs = vela_run.compile_many(jobs)
+    # growth beyond the listed property (DESIGN.md section 8): LiveRange.tla - the time assignment of live_range.py covers
+    # every simultaneous use (design-level MC + negative controls), and the live ranges every real allocation pass received
+    # are validated against the use intervals of the emitted command order.  Its findings are *not* verdicts of C12: a range
+    # that is too short only becomes a C12 violation when the plan of the output file overlaps live tensors (checked below).
+    for name, res in liverange.mc(tier):
+        run.add_mc("LiveRange/" + name, res)
+    liverange.negative_trace_control()
+    liverange.install()
+    try:
+        rs = vela_run.compile_many(jobs, extractor=liverange.extractor)
+    finally:
+        liverange.uninstall()
+    lres, lfind, lcnt = liverange.validate([x.get("extract") for x in rs])
+    if lres is not None:
+        run.add_trace_run("LiveRangeTrace", lres, lcnt.get("passes", 0))
+    run.cov["liverange"] = {"counters": lcnt, "latent": sum(1 for f in lfind if f["kind"] == "latent"),
+                            "manifest": sum(1 for f in lfind if f["kind"] == "manifest"),
+                            "first": [{k: f.get(k) for k in ("kind", "prop", "area", "detail")} |
+                                      {"family": jobs[f["job"]]["family"]} for f in lfind[:10]]}
+    for f in lfind[:20]:
+        print("LATENT: LiveRange %s %s in %s: %s" % (f["kind"], f["prop"], jobs[f["job"]]["family"], str(f.get("detail"))[:200]))
     events, index = [], {}
     tid = 0
     for j, x in zip(jobs, rs):
